@@ -435,6 +435,9 @@ def gen_pool(rng, templated, paths):
             blocks.append({"cond": rng.choice(CONDS[3:]), "items": [[rng.choice(["k", "j", "y"]), gen_value(rng, "k")]]})
         pool.append({"blocks": blocks})
     pool.append({"raw": "{}\n"})
+    # two texts that differ only in the white space in front of the first line - and in what they mean
+    pool.append({"raw": "d:\n  u: 1\n"})
+    pool.append({"raw": "  d:\n  u: 1\n"})
     return pool
 
 
@@ -475,6 +478,8 @@ def gen_c12_case(rng, cache_size=None, template="default"):
             steps.append(["get", rng.choice(ids), rng.randrange(len(pdatas))])
         elif r < 0.72:
             steps.append(["write", rng.choice(C12_PATHS if rng.random() < 0.25 else paths), copy.deepcopy(rng.choice(pool))])
+            if rng.random() < 0.15:
+                steps[-1].append("keep_mtime")      # replaced, but with the old file's modification time
         elif r < 0.77:
             steps.append(["delete", rng.choice(paths if rng.random() < 0.7 else C12_PATHS)])
         elif r < 0.87:
